@@ -709,6 +709,33 @@ def check_eshift(prog, rep):
                               '`%s` returns the energy on a path that does not pass `if '
                               'self.E_shift is not None: E0 -= self.E_shift`: that exit reports '
                               'the eigenvalue of H + E_shift' % key_text(r)[:60], r.lineno)
+    # ... and nowhere else: a second subtraction (in a helper feeding self.Es, say) removes the
+    # shift twice.  Every arithmetic use of self.E_shift outside __init__ is one of the removals.
+    for q2, f2 in sorted(m.functions.items()):
+        if q2.endswith('.__init__'):
+            continue
+        for x in ast.walk(f2):
+            hit = None
+            if isinstance(x, ast.BinOp) and isinstance(x.op, (ast.Sub, ast.Add)) and (
+                    unparse(x.right) == 'self.E_shift' or unparse(x.left) == 'self.E_shift'):
+                hit = x
+            elif isinstance(x, ast.AugAssign) and isinstance(x.op, (ast.Sub, ast.Add)) and \
+                    unparse(x.value) == 'self.E_shift':
+                hit = x
+            if hit is None:
+                continue
+            rep.instance('KRYLOV-eshift', {'function': q2, 'arithmetic': unparse(hit)[:60]})
+            st_ = hit
+            while not isinstance(st_, ast.stmt):
+                st_ = parent(st_)
+            tg_ = st_.target if isinstance(st_, ast.AugAssign) else (
+                st_.targets[0] if isinstance(st_, ast.Assign) else None)
+            if q2 not in ('LanczosGroundState.run', 'Arnoldi.run') or not isinstance(tg_, ast.Name):
+                rep.violation('KRYLOV-eshift', m, q2, 'shift-removed-twice',
+                              '`%s`: the shift is removed from the returned energy in run(); '
+                              'arithmetic with self.E_shift here changes the Ritz values a '
+                              'second time (the returned energy is no longer the Rayleigh '
+                              'quotient of the returned vector)' % unparse(hit)[:60], hit.lineno)
     for qn in ('Arnoldi.run', 'ArnoldiEvolution.run'):
         if not m.has_func(qn):
             continue
